@@ -272,14 +272,15 @@ type failure = { kind : string; detail : string; signature : string }
 
 (* expected = Some texts for valid streams; gate = Some offset of the byte completing the length
    field of the first packet whose announced size exceeds max (size-gate monitor) *)
-let check_stream (h : harness) (v : version) (max : int) (stream : int array) (ch1 : int list list) (ch2 : int list list)
+let check_stream (h : harness) (v : version) (mx : int) (stream : int array) (ch1 : int list list) (ch2 : int list list)
     (expected : string list option) (gate : int option) (what : string) (dist : (string, int) Hashtbl.t) : failure option =
-  let (iv1, ip1) = run_impl h v max ch1 in
-  let (iv2, ip2) = run_impl h v max ch2 in
-  let (mv1, mp1) = run_model v max ch1 in
-  let (mv2, mp2) = run_model v max ch2 in
+  let (iv1, ip1) = run_impl h v mx ch1 in
+  let (iv2, ip2) = run_impl h v mx ch2 in
+  let (mv1, mp1) = run_model v mx ch1 in
+  let (mv2, mp2) = run_model v mx ch2 in
   bump dist ("verdict:" ^ verdict_kind iv1);
-  let cmd1 = shorten (dec_command v max ch1) and cmd2 = shorten (dec_command v max ch2) in
+  let lim c = if String.length c > 20000 then shorten c else c in
+  let cmd1 = lim (dec_command v mx ch1) and cmd2 = lim (dec_command v mx ch2) in
   let fail kind signature msg = Some { kind; signature; detail = Printf.sprintf "%s :: %s :: [1] %s => %s n=%d | [2] %s => %s n=%d | model [1] %s n=%d [2] %s n=%d"
                                           what msg cmd1 iv1 (L.length ip1) cmd2 iv2 (L.length ip2) mv1 (L.length mp1) mv2 (L.length mp2) } in
   (* property monitors on the implementation *)
@@ -291,7 +292,7 @@ let check_stream (h : harness) (v : version) (max : int) (stream : int array) (c
     let rc143 = kindname = "UNSUBACK" && (let toks = String.split_on_char ' ' first_bad in
                                           match L.rev toks with codes :: _ -> L.mem "143" (String.split_on_char ',' (String.sub codes 1 (max 0 (String.length codes - 2)))) | [] -> false) in
     fail "property" (Printf.sprintf "faithful:%s:v%s:%s%s" kindname (vtok v) (verdict_kind iv1) (if rc143 then ":unsuback-rc143" else ""))
-      (Printf.sprintf "spec-conformant packets not decoded to their content; first missing: %s" (shorten first_bad))
+      (Printf.sprintf "spec-conformant packets not decoded to their content; first missing: VALID %s %s ENDVALID" (vtok v) (shorten first_bad))
   end
   else if verdict_kind iv1 <> verdict_kind iv2 || ip1 <> ip2 then fail "property" "chunking" "two chunkings of the same stream give different packets / verdicts"
   else if (match verdict_index iv1, verdict_index iv2 with
@@ -299,9 +300,11 @@ let check_stream (h : harness) (v : version) (max : int) (stream : int array) (c
       | _ -> false) then fail "property" "chunking-position" "two chunkings fail at different bytes of the stream"
   else if (match gate with
       | Some off ->
-        let ok_for iv ch = (match verdict_index iv with Some i -> let (a, b) = chunk_range ch i in a <= off && off < b | None -> false) in
+        (* an error must be reported no later than by the call that consumes byte [off] (an earlier
+           packet of the stream may already have been rejected) *)
+        let ok_for iv ch = (match verdict_index iv with Some i -> let (a, _) = chunk_range ch i in a <= off | None -> false) in
         not (ok_for iv1 ch1 && ok_for iv2 ch2)
-      | None -> false) then fail "property" "size-gate" "oversized announcement not rejected at the byte completing the length field"
+      | None -> false) then fail "property" "size-gate" "oversized announcement not rejected by the call that consumes the byte completing the length field"
   (* tie: the model agrees with the implementation *)
   else if iv1 <> mv1 || ip1 <> mp1 then fail "tie" "tie" "model and implementation disagree on chunking [1]"
   else if iv2 <> mv2 || ip2 <> mp2 then fail "tie" "tie" "model and implementation disagree on chunking [2]"
@@ -484,10 +487,28 @@ let run_tables (h : harness) (dist : (string, int) Hashtbl.t) : failure list * i
         done;
         bump dist ("table:" ^ name);
         let show l = String.concat "," (L.map string_of_int l) in
-        if !diff_spec <> [] then
+        if !diff_spec <> [] then begin
+          (* a replayable witness: a packet carrying the first code the specification allows and the implementation rejects *)
+          let rejected = L.filter (fun i -> reply.[i] = '0') !diff_spec in
+          let witness = (match rejected with
+              | [] -> ""
+              | c :: _ ->
+                (match name with
+                 | "connect" -> Printf.sprintf " witness: VALID 5 CONNACK 0 %d - - - - - - - - - - - - - - - - - ENDVALID" c
+                 | "puback" -> Printf.sprintf " witness: VALID 5 PUBACK 1 %d - - ENDVALID" c
+                 | "pubrec" -> Printf.sprintf " witness: VALID 5 PUBREC 1 %d - - ENDVALID" c
+                 | "pubrel" -> Printf.sprintf " witness: VALID 5 PUBREL 1 %d - - ENDVALID" c
+                 | "pubcomp" -> Printf.sprintf " witness: VALID 5 PUBCOMP 1 %d - - ENDVALID" c
+                 | "disconnect" -> Printf.sprintf " witness: VALID 5 DISCONNECT %d - - - - ENDVALID" c
+                 | "suback" -> Printf.sprintf " witness: VALID 5 SUBACK 1 - - [%d] ENDVALID" c
+                 | "unsuback" -> Printf.sprintf " witness: VALID 5 UNSUBACK 1 - - [%d] ENDVALID" c
+                 | "auth" -> Printf.sprintf " witness: VALID 5 AUTH %d - - - - ENDVALID" c
+                 | "suback311" -> Printf.sprintf " witness: VALID 311 SUBACK 1 - - [%d] ENDVALID" c
+                 | _ -> "")) in
           fails := { kind = "property"; signature = Printf.sprintf "table:%s:%s" name (show !diff_spec);
-                     detail = Printf.sprintf "TABLE %s :: the compiled implementation's acceptance differs from the specification's table at values [%s] (accepted by the implementation: [%s])"
-                         name (show !diff_spec) (show (L.filter (fun i -> reply.[i] = '1') !diff_spec)) } :: !fails;
+                     detail = Printf.sprintf "TABLE %s :: the compiled implementation's acceptance differs from the specification's table at values [%s] (accepted by the implementation: [%s])%s"
+                         name (show !diff_spec) (show (L.filter (fun i -> reply.[i] = '1') !diff_spec)) witness } :: !fails
+        end;
         if !diff_model <> [] then
           fails := { kind = "tie"; signature = "table-model:" ^ name;
                      detail = Printf.sprintf "TABLE %s :: the model's impl_ table differs from the compiled implementation at values [%s]" name (show !diff_model) } :: !fails
@@ -495,29 +516,47 @@ let run_tables (h : harness) (dist : (string, int) Hashtbl.t) : failure list * i
   (L.rev !fails, !evals)
 
 (* ---------------------------------------------------------------- corpus / replay lines *)
-let parse_dec_line (line : string) : (version * int * int list list) option =
-  let toks = split_ws (String.map (fun ch -> if ch = '"' || ch = ',' || ch = '\\' then ' ' else ch) line) in
-  let rec find = function
-    | "DEC" :: v :: mx :: rest when (v = "5" || v = "311") ->
-      (try
-         let chunks = ref [] in
-         let rec take = function
-           | t :: tl when String.length t >= 1 && t.[0] = 'x' && (try ignore (bytes_of_hex t); true with _ -> false) ->
-             chunks := L.map int_of_n (bytes_of_hex t) :: !chunks; take tl
-           | _ -> () in
-         take rest;
-         Some ((if v = "5" then V5 else V311), int_of_string mx, L.rev !chunks)
-       with _ -> None)
-    | _ :: tl -> find tl
-    | [] -> None in
-  find toks
+(* Every occurrence of `DEC <version> <max> x.. x..` and of `VALID <version> <packet text> ENDVALID`
+   in a line is a case (this also finds them inside the JSON replay files ./check writes).
+   Two DEC occurrences of the same stream in one line are the two chunkings of one case. *)
+type ccase =
+  | CDec of version * int * int list list * int list list
+  | CValid of version * packet
 
-let read_corpus (files : string list) : (version * int * int list list) list =
+let is_hex_token (t : string) =
+  String.length t >= 1 && t.[0] = 'x' && (String.length t) mod 2 = 1 &&
+  (let ok = ref true in String.iteri (fun i ch -> if i > 0 && not ((ch >= '0' && ch <= '9') || (ch >= 'a' && ch <= 'f')) then ok := false) t; !ok)
+
+let parse_line (line : string) : ccase list =
+  let toks = split_ws line in
+  let decs = ref [] and valids = ref [] in
+  let rec scan = function
+    | "DEC" :: v :: mx :: rest when (v = "5" || v = "311") && (try ignore (int_of_string mx); true with _ -> false) ->
+      let rec take acc = function t :: tl when is_hex_token t -> take (L.map int_of_n (bytes_of_hex t) :: acc) tl | tl -> (L.rev acc, tl) in
+      let (chunks, tl) = take [] rest in
+      decs := ((if v = "5" then V5 else V311), int_of_string mx, chunks) :: !decs; scan tl
+    | "VALID" :: v :: rest when (v = "5" || v = "311") ->
+      let rec take acc = function "ENDVALID" :: tl -> Some (L.rev acc, tl) | t :: tl -> take (t :: acc) tl | [] -> None in
+      (match take [] rest with
+       | Some (ptoks, tl) ->
+         (try valids := CValid ((if v = "5" then V5 else V311), Ptext.packet_of_tokens ptoks) :: !valids with _ -> ());
+         scan tl
+       | None -> ())
+    | _ :: tl -> scan tl
+    | [] -> () in
+  scan toks;
+  let decs = L.rev !decs in
+  let dec_cases = (match decs with
+      | [(v1, m1, c1); (v2, m2, c2)] when v1 = v2 && m1 = m2 && L.concat c1 = L.concat c2 -> [CDec (v1, m1, c1, c2)]
+      | l -> L.map (fun (v, m, c) -> CDec (v, m, c, [L.concat c])) l) in
+  L.rev !valids @ dec_cases
+
+let read_corpus (files : string list) : ccase list =
   L.concat_map (fun file ->
       try
         let ic = open_in file in
         let rec go acc = match input_line ic with
-          | l -> (match parse_dec_line l with Some c when String.length l > 0 && l.[0] <> '#' -> go (c :: acc) | _ -> go acc)
+          | l -> if String.length l > 0 && l.[0] = '#' then go acc else go (L.rev_append (parse_line l) acc)
           | exception End_of_file -> close_in ic; L.rev acc in
         go []
       with Sys_error _ -> []) files
@@ -543,12 +582,24 @@ let main (seed : int) (count : int) (harness_path : string) (extra : string list
   end;
   (* corpus / replay *)
   let corpus = read_corpus extra in
-  L.iter (fun (v, mx, chunks) ->
+  L.iter (fun cc ->
       incr cases; bump dist "corpus";
-      let stream = L.concat chunks in
-      events := !events + L.length chunks + 1;
-      note_stream stream "corpus";
-      record (check_stream h v mx (Array.of_list stream) chunks [stream] None None "corpus" dist)) corpus;
+      match cc with
+      | CDec (v, mx, ch1, ch2) ->
+        let stream = L.concat ch1 in
+        events := !events + L.length ch1 + L.length ch2;
+        note_stream stream "corpus";
+        record (check_stream h v mx (Array.of_list stream) ch1 ch2 None None "corpus" dist)
+      | CValid (v, p) ->
+        (match SpecEncodeS2C.spec_encode v p with
+         | Some b ->
+           let stream = L.map int_of_n b in
+           let a = Array.of_list stream in
+           events := !events + 2 + L.length stream;
+           note_stream stream "corpus-valid";
+           record (check_stream h v 0 a [stream] (L.map (fun x -> [x]) stream) (Some [Ptext.packet_to_text p]) None
+                     ("corpus-valid v" ^ vtok v ^ " " ^ Ptext.packet_to_text p) dist)
+         | None -> record (Some { kind = "tie"; signature = "corpus"; detail = "corpus VALID line is not encodable by the specification encoder: " ^ Ptext.packet_to_text p }))) corpus;
   for i = 1 to count do
     incr cases;
     if i mod 7 < 2 then begin
